@@ -74,6 +74,7 @@ px := mut any 0;
 py := mut any 0;
 px = py;
 py = px;
+pq := mut (int, int) (0, 0);
 cu := mut [1, 2.5][0];
 cv := mut [1, "s"][0];
 fnlist := mut [() -> mut int] [];
@@ -112,7 +113,19 @@ pub const CELLS: &[CellSpec] = &[
 ];
 pub const CC: usize = 9;
 /// further cells of the world that are not modelled: only their declared-type invariant is judged
-pub const EXTRA_CELLS: &[&str] = &["ps", "pt", "pf", "pn", "pu", "px", "py", "selfc", "fnlist", "cu", "cv"];
+pub const EXTRA_CELLS: &[&str] = &["ps", "pt", "pf", "pn", "pu", "px", "py", "selfc", "fnlist", "cu", "cv", "pq"];
+
+/// Operations on the tuple cell `pq`, whose writers always store two equal components: a reader
+/// that destructures or indexes ONE read of the cell sees equal components under every
+/// interleaving. (text, result)
+pub const PQ_OPS: &[(&str, Option<i64>)] = &[
+    ("{ pq = (3, 3); 0 }", Some(0)),
+    ("{ pq = (8, 8); 0 }", Some(0)),
+    ("{ pq = (21, 21); 0 }", Some(0)),
+    ("{ (x, y) := *pq; x - y }", Some(0)),
+    ("{ t := *pq; t.0 - t.1 }", Some(0)),
+    ("{ (x, y) := *pq; u := (y, x); u.0 - u.1 }", Some(0)),
+];
 
 /// Well-typed operations on the un-modelled cells (the checker must accept them; afterwards every
 /// cell must still hold a value of the type its run-time tag declares), with the result where it
@@ -156,6 +169,14 @@ pub const VALID: &[(&str, Option<i64>)] = &[
     ("{ p := mut 3; p **= 1 + 1; *p }", Some(9)),
     ("{ p := mut 2; p += 2 * 3; p -= 10 - 4; p <<= 1 + 1; p |= 1 | 2; p %= 3 + 4; *p }", Some(4)),
     ("{ p := mut 7; q := (p *= 2 + 1) + 1; q * 100 + *p }", Some(2221)),
+    // `c op= v` stores and yields what `*c op v` yields, also at the ends of the int range
+    ("{ lo := 0 - 9223372036854775807 - 1; c := mut lo; d := *c / (0 - 1); c /= 0 - 1; if *c == d { 1 } else { 0 } }", Some(1)),
+    ("{ lo := 0 - 9223372036854775807 - 1; c := mut lo; d := *c % (0 - 1); c %= 0 - 1; if *c == d { 1 } else { 0 } }", Some(1)),
+    ("{ hi := 9223372036854775807; c := mut hi; d := *c + 1; c += 1; if *c == d { 1 } else { 0 } }", Some(1)),
+    ("{ lo := 0 - 9223372036854775807 - 1; c := mut lo; d := *c - 1; c -= 1; if *c == d { 1 } else { 0 } }", Some(1)),
+    ("{ hi := 9223372036854775807; c := mut hi; d := *c * 2; c *= 2; if *c == d { 1 } else { 0 } }", Some(1)),
+    ("{ lo := 0 - 9223372036854775807 - 1; c := mut lo; d := *c * (0 - 1); c *= 0 - 1; if *c == d { 1 } else { 0 } }", Some(1)),
+    ("{ c := mut 1; d := *c << 63; c <<= 63; e := *c >> 63; c >>= 63; if *c == e { if d < 0 { 1 } else { 2 } } else { 0 } }", Some(1)),
     ("ps = struct{x := 5, y := 6}", None),
     ("pt = (2, \"t\")", None),
     ("pu = [\"a\", 2]", None),
@@ -687,6 +708,10 @@ pub fn gen_op(rng: &mut Rng, cfg: &GenCfg, unique: &mut i64) -> Op {
                     _ => OpKind::PairTie,
                 },
             };
+        }
+        if roll >= 12 && roll < 15 {
+            let (text, r) = PQ_OPS[rng.below(PQ_OPS.len())];
+            return Op { cell: 0, path: 0, kind: OpKind::Valid(text.to_string(), r) };
         }
         if roll < 12 && !cfg.concurrent {
             if rng.chance(1, 3) {
